@@ -192,6 +192,24 @@ def epiLoop : Nat → Nat → List Nat → EpiState → Option EpiState
     | .tailCall => some s
     | .couldBeAuth => if isAuthTailCall bytes then some s else none
 
+/-- `unwind_rule_from_detected_epilogue`: the rule for the accumulated effects of the rest of
+the epilogue (`none` if a field does not fit the rule's types). -/
+def epiFound (s : EpiState) : Option RuleA64 :=
+  let q := s.spOff.tdiv 16
+  if ¬ (0 ≤ q ∧ q < 65536) then none
+  else
+    let i16 (x : Int) : Option Int :=
+      let d := x.tdiv 8
+      if -32768 ≤ d ∧ d < 32768 then some d else none
+    match s.fpOff, s.lrOff with
+    | none, none => if q = 0 then some .noOp else some (.offsetSp q.toNat)
+    | none, some l => (i16 l).map fun l' => .offsetSpAndRestoreLr q.toNat l'
+    | some _, none => none
+    | some f, some l =>
+      match i16 f, i16 l with
+      | some f', some l' => some (.offsetSpAndRestoreFpAndLr q.toNat f' l')
+      | _, _ => none
+
 /-- `analyze_slice` + `unwind_rule_from_detected_epilogue`. Outer `none` = panic. -/
 def anaEpilogueA64 (text : List Nat) (pc : Nat) : Option (Option RuleA64) :=
   if pc > text.length then none
@@ -201,34 +219,19 @@ def anaEpilogueA64 (text : List Nat) (pc : Nat) : Option (Option RuleA64) :=
     else
       let w := wordAt bytes 0
       let rest := bytes.drop 4
-      let found (s : EpiState) : Option RuleA64 :=
-        let q := s.spOff.tdiv 16
-        if ¬ (0 ≤ q ∧ q < 65536) then none
-        else
-          let i16 (x : Int) : Option Int :=
-            let d := x.tdiv 8
-            if -32768 ≤ d ∧ d < 32768 then some d else none
-          match s.fpOff, s.lrOff with
-          | none, none => if q = 0 then some .noOp else some (.offsetSp q.toNat)
-          | none, some l => (i16 l).map fun l' => .offsetSpAndRestoreLr q.toNat l'
-          | some _, none => none
-          | some f, some l =>
-            match i16 f, i16 l with
-            | some f', some l' => some (.offsetSpAndRestoreFpAndLr q.toNat f' l')
-            | _, _ => none
       match epiInsnType w with
       | .notExpected => some none
       | .couldBeTailCall a =>
         if pc ≥ a ∧ wordAt (text.drop (pc - a)) 0 = 0xd50323ff ∧ (text.drop (pc - a)).length ≥ 4 ∧
-            isAuthTailCall (text.drop (pc - a + 4)) then some (found {})
-        else if pc ≥ 4 ∧ adjustsSp (wordAt text (pc - 4)) then some (found {})
+            isAuthTailCall (text.drop (pc - a + 4)) then some (epiFound {})
+        else if pc ≥ 4 ∧ adjustsSp (wordAt text (pc - 4)) then some (epiFound {})
         else some none
       | .couldBeAuthTailCall a =>
         if pc ≥ a ∧ wordAt (text.drop (pc - a)) 0 = 0xd50323ff ∧ (text.drop (pc - a)).length ≥ 4 ∧
-            isAuthTailCall (text.drop (pc - a + 4)) then some (found {})
+            isAuthTailCall (text.drop (pc - a + 4)) then some (epiFound {})
         else some none
       | .veryLikely =>
-        some ((epiLoop (bytes.length + 1) w rest {}).bind found)
+        some ((epiLoop (bytes.length + 1) w rest {}).bind epiFound)
 
 def anaA64 (text : List Nat) (pc : Nat) : Option (Option RuleA64) :=
   match anaPrologueA64 text pc with
